@@ -85,9 +85,10 @@ Theorem C30_encode_never_panics_refuted :
 Proof. exact (ex_intro _ Latin1 encode_panics_witness). Qed.
 Print Assumptions C30_encode_never_panics_refuted.
 
-(* "unrepresentable characters are reported or replaced" is FALSE of Utf16/Utf32 Encode: byte sequences that are
-   no characters (UTF-8-encoded surrogate; value above U+10FFFF) are accepted and turned into undecodable output *)
-Theorem C30_encode_reports_unrepresentable_refuted :
+(* A fact, NOT a violation of the property (invalid UTF-8 holds no characters; only "no crash" is demanded there):
+   Utf16/Utf32 Encode accept byte sequences that are no characters (UTF-8-encoded surrogate; value above U+10FFFF)
+   and turn them into undecodable output.  This is why these two tables satisfy wf_map but not wf_exact. *)
+Theorem C30_utf16_utf32_accept_invalid_utf8_fact :
   (exists rm s c, In rm all_tables /\ encode rm s [] = Ok c /\ decode rm c = Fail /\ s = [237; 160; 128]) /\
   (exists rm s c, In rm all_tables /\ encode rm s [] = Ok c /\ decode rm c = Fail /\ s = [244; 144; 128; 128]).
 Proof.
@@ -99,7 +100,7 @@ Proof.
        (conj (proj1 utf32_accepts_unrepresentable) (conj (proj1 (proj2 utf32_accepts_unrepresentable))
              (conj (proj2 (proj2 utf32_accepts_unrepresentable)) eq_refl))))))).
 Qed.
-Print Assumptions C30_encode_reports_unrepresentable_refuted.
+Print Assumptions C30_utf16_utf32_accept_invalid_utf8_fact.
 
 (* "unrepresentable characters are replaced by '?'" -- and nothing else is lost -- is FALSE of EncodeReplaceUnknown
    near the end of the input: in ";" U+0179 "+" the representable '+' disappears together with U+0179 *)
